@@ -904,6 +904,21 @@ func (f *Frame) loopEnv(h *ssa.BasicBlock, st *State, phiOverride map[*ssa.Phi]V
 			}
 		}
 	}
+	// store iterator loops (for ; it.Valid(); it.Next()): the same pseudo-variables, over the iterator's enumeration
+	for b := range f.loopBlk[h] {
+		for _, bi := range b.Instrs {
+			if ci, ok := bi.(ssa.CallInstruction); ok && ci.Common().IsInvoke() && (ci.Common().Method.Name() == "Next" || ci.Common().Method.Name() == "Valid") {
+				if it, ok := f.vals[ci.Common().Value]; ok && it.Sort == "Iter" {
+					if ki := g.kvIters[it.Term]; ki != nil {
+						env.cellVars["iterpos"] = ki.cell
+						env.vars["rangekeys"] = Val{Sort: "Enum", Term: it.Term}
+						env.vars["rangecount"] = Val{Sort: "Int", Term: ki.cnt}
+						env.vars["rangeinv"] = Val{Sort: "Func", Term: ki.inv}
+					}
+				}
+			}
+		}
+	}
 	// `ranged`: the slice a range-over-slice loop with this header iterates over (the value indexed by rangeindex+1)
 	for _, ins := range h.Instrs {
 		phi, ok := ins.(*ssa.Phi)
@@ -1176,6 +1191,13 @@ func (f *Frame) loopHeader(h *ssa.BasicBlock, st *State, reach string) (*State, 
 			case *ssa.Next:
 				li.havCells[f.iterCell(x.Iter)] = true
 			case *ssa.Call:
+				if x.Common().IsInvoke() && x.Common().Method.Name() == "Next" {
+					if it, ok := f.vals[x.Common().Value]; ok && it.Sort == "Iter" {
+						if ki := g.kvIters[it.Term]; ki != nil {
+							li.havCells[ki.cell] = true
+						}
+					}
+				}
 				f.callEffects(x.Common(), li, 0, nil)
 			}
 		}
